@@ -63,6 +63,13 @@ func (w *wireEx) start() {
 	if tr, ok := p.GetRoundTripper().(*http.Transport); ok {
 		tr.Proxy = nil
 	}
+	// the one modifier of this executor: requests marked X-Verif-Skip never reach an origin
+	p.SetRequestModifier(martian.RequestModifierFunc(func(req *http.Request) error {
+		if req.Header.Get("X-Verif-Skip") != "" {
+			martian.NewContext(req).SkipRoundTrip()
+		}
+		return nil
+	}))
 	w.proxy = p
 	go p.Serve(w.pl)
 }
@@ -131,6 +138,8 @@ type wireX struct {
 	method   string
 	req, res []byte
 	id       string
+	dead     bool // the target refuses the connection: the proxy must answer 502 and stay in frame
+	skip     bool // a request modifier skips the round trip: 200 from the proxy, body never forwarded
 }
 
 // e2eHeaders: the end-to-end fields of a parsed message (hop-by-hop and framing fields excluded, as in
@@ -171,11 +180,14 @@ func (w *wireEx) Do(op string) core.Result {
 			m, _ := core.Unhex(p[0])
 			rq, _ := core.Unhex(p[1])
 			rs, _ := core.Unhex(p[2])
+			if p[2] == "s" {
+				rs = nil
+			}
 			w.seq++
 			id := strconv.Itoa(w.seq)
 			rq = bytes.ReplaceAll(rq, []byte("ORIGIN"), []byte(origin))
 			rq = bytes.ReplaceAll(rq, []byte("VERIFID"), []byte(id))
-			xs = append(xs, &wireX{method: string(m), req: rq, res: rs, id: id})
+			xs = append(xs, &wireX{method: string(m), req: rq, res: rs, id: id, dead: p[2] == "-", skip: p[2] == "s"})
 		}
 	}
 	if len(xs) == 0 {
@@ -261,6 +273,25 @@ func (w *wireEx) Do(op string) core.Result {
 		}
 		served++
 		lastServed = i
+		if x.dead || x.skip {
+			// nothing listens there (502) or the round trip is skipped (200): either way the proxy
+			// answers by itself, and the request body must not be taken for the next request
+			want := 502
+			if x.skip {
+				want = 200
+			}
+			if dm.Class == "ok" && dm.Code == want {
+				impl = append(impl, fmt.Sprintf("%d:unreachable", i))
+			} else {
+				impl = append(impl, fmt.Sprintf("%d:unreachable-but[%s]", i, dm.Line(0)))
+				fail("c01:wire-own-answer", fmt.Sprintf("request %d (refusing target / skipped round trip) was answered %s", i, dm.Line(0)))
+			}
+			mop = append(mop, "u")
+			if i+1 < len(xs) && !sent.Close && downMsg[i+1] == nil {
+				fail("c01:wire-unframed-after-own-answer", fmt.Sprintf("no response to request %d after the proxy's own %d: the connection is out of frame (request %d had a %d-byte body)", i+1, want, i, len(sent.Body)))
+			}
+			continue
+		}
 		upLine, downLine := "none", dm.Line(0)
 		if up != nil {
 			upLine = upM.Line(0)
@@ -399,6 +430,26 @@ func relaySpec(r *core.Rand, last bool, maxBody int) (*golib.H1Spec, *golib.H1Sp
 	return q, s
 }
 
+// deadSpec: a request with a body to a target that refuses the connection.
+func deadSpec(r *core.Rand, skip bool) *golib.H1Spec {
+	q := golib.GenH1Spec(r, true, 3000)
+	q.Method = r.Pick("POST", "PUT", "PATCH")
+	q.Proto = "HTTP/1.1"
+	q.Target = "http://127.0.0.1:1/dead" + r.Pick("", "?x=1")
+	q.Fields = [][2]string{{"Host", "127.0.0.1:1"}, {wireID, "VERIFID"}, {"X-A", "1"}}
+	if skip {
+		q.Fields = append(q.Fields, [2]string{"X-Verif-Skip", "1"})
+	}
+	q.Framing = r.Pick("cl", "chunked")
+	q.Trailer = nil
+	q.Body = golib.H1Body(r, 3000)
+	if len(q.Body) == 0 {
+		q.Body = []byte("GET /smuggled HTTP/1.1\r\nHost: x\r\n\r\n")
+	}
+	q.Chunks = golib.H1Chunks(r, len(q.Body))
+	return q
+}
+
 func genWire(r *core.Rand, tier string, emit func([]string)) {
 	n := 120
 	if tier == "thorough" {
@@ -412,6 +463,13 @@ func genWire(r *core.Rand, tier string, emit func([]string)) {
 			maxBody := 3000
 			if r.Chance(1, 10) {
 				maxBody = 70000
+			}
+			if j < k-1 && r.Chance(1, 6) {
+				skip := r.Bool()
+				q := deadSpec(r, skip)
+				op += " x=" + core.HexS(q.Method) + ":" + core.Hex(q.Wire()) + ":" + map[bool]string{true: "s", false: "-"}[skip]
+				core.Count("h1.relay.gen:req=" + q.Framing + ",res=" + map[bool]string{true: "skipped", false: "unreachable"}[skip])
+				continue
 			}
 			q, s := relaySpec(r, j == k-1, maxBody)
 			op += " x=" + core.HexS(q.Method) + ":" + core.Hex(q.Wire()) + ":" + core.Hex(s.Wire())
